@@ -1,5 +1,6 @@
 import MypyVerif.Proofs.VTable
 import MypyVerif.Proofs.ForRange
+import MypyVerif.Proofs.ErrEdges
 /-!
 # C05 — mypyc-compiled code behaves like the interpreted source (logic slices)
 
@@ -275,3 +276,63 @@ theorem pyRange_items (start stop step : Int) :
   rangeFrom_eq_map _ start step
 
 end ForRange
+
+namespace ErrEdges
+
+/-- **checkBlock_sound** (slice (d)).  For every basic block the checker accepts and every choice of which
+    fallible ops fail: no op ever reads a value that holds an error result, a failure is never left unchecked
+    (the outcome is not `bad`), and whenever the block is left through an error exit it is the error label
+    of its terminating branch.  (The checker is run on every block of every function the harness exports.) -/
+theorem checkBlock_sound (fails : Nat → Bool) : ∀ (ops : List Op) (t : Term) (i : Nat),
+    checkOps ops t = true →
+    run fails ops t i none ≠ .bad ∧ ∀ l, run fails ops t i none = .err l → errLabel t = some l := by
+  intro ops
+  induction ops with
+  | nil =>
+    intro t i _
+    simp only [run]
+    exact ⟨(runTerm_none t).1, fun l h => absurd h ((runTerm_none t).2 l)⟩
+  | cons o rest ih =>
+    intro t i h
+    simp only [checkOps] at h
+    by_cases hk : o.ek = .never
+    · simp only [hk, if_true] at h
+      simp only [run, hk, ne_eq, not_true_eq_false, decide_false, Bool.false_and, Bool.false_eq_true, if_false]
+      exact ih t (i + 1) h
+    · simp only [hk, if_false, Bool.and_eq_true] at h
+      obtain ⟨h1, h2⟩ := h
+      simp only [run]
+      by_cases hf : (o.ek ≠ .never && fails i) = true
+      · simp only [hf, if_true]
+        rw [run_tail_poison fails o.dest rest t (i + 1) h1]
+        obtain ⟨l, hl, he⟩ := runTerm_checked o t h2 hk
+        rw [hl]
+        refine ⟨by simp, ?_⟩
+        intro l' hl'
+        simp only [Outcome.err.injEq] at hl'
+        rw [← hl']; exact he
+      · simp only [hf, Bool.false_eq_true, if_false]
+        rw [run_tail_clean fails o.dest rest t (i + 1) h1]
+        exact ⟨(runTerm_none t).1, fun l h => absurd h ((runTerm_none t).2 l)⟩
+
+/-- a failing checked op really leaves through the error edge -/
+theorem failing_op_takes_error_edge (fails : Nat → Bool) (o : Op) (rest : List Op) (t : Term) (i : Nat)
+    (h : checkOps (o :: rest) t = true) (hk : o.ek ≠ .never) (hf : fails i = true) :
+    ∃ l, run fails (o :: rest) t i none = .err l := by
+  simp only [checkOps, hk, if_false, Bool.and_eq_true] at h
+  obtain ⟨h1, h2⟩ := h
+  obtain ⟨l, hl, _⟩ := runTerm_checked o t h2 hk
+  refine ⟨l, ?_⟩
+  have : (o.ek ≠ .never && fails i) = true := by simp [hk, hf]
+  simp only [run, this, if_true]
+  rw [run_tail_poison fails o.dest rest t (i + 1) h1, hl]
+
+-- non-vacuity: `r0 = PyList_New(0) [ERR_MAGIC]; dec_ref r7; if is_error(r0) goto L6 else goto L1` passes,
+-- the same block with the branch on another value, or with a use of r0 before the check, does not
+example : checkBlock ⟨[⟨some 0, [], .magic, false⟩, ⟨none, [7], .never, true⟩], .branch .isError (some 0) false 6 1⟩ = true := by decide
+example : checkBlock ⟨[⟨some 0, [], .magic, false⟩], .branch .isError (some 3) false 6 1⟩ = false := by decide
+example : checkBlock ⟨[⟨some 0, [], .magic, false⟩, ⟨some 1, [0], .never, false⟩], .branch .isError (some 0) false 6 1⟩ = false := by decide
+example : checkBlock ⟨[⟨some 0, [], .false_, false⟩], .goto 2⟩ = false := by decide
+example : run (fun _ => true) [⟨some 0, [], .magic, false⟩] (.goto 2) 0 none = .bad := by decide
+
+end ErrEdges
